@@ -20,6 +20,13 @@ def _nested(fb, f, depth=0):
                 g = fb.fn.get(key)
                 if g is not None and g is not f and g not in out:
                     out += _nested(fb, g, depth + 1)
+    # private helpers of the group that are not one of the judged functions themselves (an extracted InsertOne<NeedMove>)
+    for c in f.calls():
+        g = fb.fn.get(c.get('ck'))
+        if g is not None and g.cfg is not None and g.clsq == 'yaclib::WaitGroup' and g is not f and g not in out and \
+                g.n not in ('Consume', 'Attach', 'InsertCore', 'InsertIt', 'InsertRange', 'Add', 'Done', 'Reset', 'Wait',
+                            'WaitFor', 'WaitUntil', 'Count'):
+            out += _nested(fb, g, depth + 1)
     return out
 
 
